@@ -2,19 +2,33 @@ import DarkluaModel.Shared.VisitorSound.Heap.HSteps
 import DarkluaModel.Shared.VisitorSound.Heap.General
 import DarkluaModel.Shared.VisitorSound
 /-!
-# Stage 3: lifting for rules that change the allocation pattern (cells)
+# Stage 3: lifting for rules that change the allocation pattern (cells) or depend on a context
 
-State relation (`Sem.Heap.SRel`): globals, tables, trace equal; cells up to a partial injection
-(unrelated cells are garbage); closures pointwise with related bodies and captured environments
-that agree outside a dead set of names. Steps: exact steps, plus any step that is sound for this
-relation (`HR.gen…`), in particular dropping / adding pure `local` declarations
-(`LkB.dropLocal`, `LkB.addLocal`, `LkRep.dropLocal`).
+**State relation** (`Sem.Heap.SRel Q cx β`): globals, tables, trace equal; cells up to a partial
+injection `β` (unrelated cells are garbage); closures pointwise with `Q`-related bodies and captured
+environments that agree outside a dead set of names; the facts `cx.G` about watched globals hold.
+**Dead sets** `D : List DName`: `.ref n` — the bindings of `n` may differ on the two sides, so nothing may
+reference `n`; `.wat n` — `n` is a watched global: nothing declares or assigns it, so it always reads
+the global. `NoRef… D a` (`Heap/Refs.lean`, decidable via `.refs`) says `a` respects `D`.
+**Steps** (`Sem.Heap.HR cx D a b D'`): exact steps (`EqE` …), any step sound for the relation for every
+closure-body relation (`HR.gen…`, proved with the exported compatibility lemmas `SoundE.bin`,
+`SoundS.localAssign`, … and `reflE` …), and `dropLocal` / `addLocal`. No transitivity: passes are
+chained at the level of outcomes (`Chain` of links).
 
-* `HooksHeap cx P` — each hook maps a node to a node reachable by a chain of links (`Chain (LkE cx)` …).
-* `Visitor.visit_heap` — then the visited program has the same observable outcome
-  (`Sem.runProgram`), for every program (functions included).
-* `HooksExact.toHeap` — exactly sound hooks that introduce no new identifier references are heap hooks,
-  so exact rules and allocation-changing rules can be mixed in one processor.
+* `HooksHeap cx P` — each hook rewrites a node by a chain of links (`Chain (LkE cx)` …); a link holds
+  for every dead set the input respects. Identity hooks are discharged by default.
+* `Visitor.visit_heap` / `runDefault_heap` / `runScoped_heap` — then the visited program has the same
+  observable outcome (`Sem.runProgram`), for every program (functions included) that neither declares
+  nor assigns a watched global (`NoRefB (watD cx) b`, decidable by `NoRefB.ofBool`; vacuous for
+  `Cx.none`); `chain_runChunk` the same from any initial state in which the facts hold.
+* ready-made links (`Heap/HSteps.lean`): `LkB.dropLocal`, `LkRep.dropLocal`, `LkB.addLocal`,
+  `LkS.permLocal`, `LkS.localFnToAssign`, `LkE.injectGlobal`, `LkE.ofCtxEq` / `LkS.ofCtxEq`
+  (contextual exact equalities), `LkE.ofEq` … (exact steps).
+* `HooksExact.toHeap` — exactly sound hooks that introduce no new references are heap hooks.
+* NOT covered: renumbering of tables / closures (`Heap/General.lean` states the missing invariance as
+  `renumbering_invariance : Prop`); re-declaration of a dropped / watched name (dead sets are
+  flow-insensitive); hooks that are sound only where the processor's scope tracker is exact on a
+  program that shadows a watched name (such programs are outside `NoRefB (watD cx) b`).
 -/
 namespace DarkluaModel
 open Sem Sem.Heap
